@@ -60,6 +60,10 @@ def run_one(row, verbose=False):
           status = "MISSED(exit %d)" % r.returncode
         elif row.get("rule") and row["rule"] not in out:
           status = "WRONG-RULE"
+      elif row["expect"] == "undecided":
+        # documents a limit: the edit breaks the property, the analysis honestly answers "cannot decide" (exit 2), never "holds"
+        if r.returncode == 0:
+          status = "SILENT-PASS"
       else:
         if r.returncode != 0:
           status = "FALSE-ALARM(exit %d)" % r.returncode
